@@ -295,9 +295,12 @@ Proof.
   rewrite (vrel_asInt _ _ Va), (vrel_asInt _ _ Vb), (vrel_asStr _ _ Va), (vrel_asStr _ _ Vb).
   destruct op; try discriminate;
     try (destruct (asInt sops va), (asInt sops vb); try discriminate; inversion A; subst;
-         eexists; split; [reflexivity|constructor]).
-  destruct (asStr sops va), (asStr sops vb); try discriminate; inversion A; subst;
-    eexists; split; [reflexivity|constructor].
+         eexists; split; [reflexivity|constructor]; fail).
+  - (* / *)
+    destruct (asInt sops va) as [x|], (asInt sops vb) as [y|]; try discriminate.
+    destruct (Z.eqb y 0); [discriminate|]. inversion A; subst. eexists; split; [reflexivity|constructor].
+  - destruct (asStr sops va), (asStr sops vb); try discriminate; inversion A; subst;
+      eexists; split; [reflexivity|constructor].
 Qed.
 
 End Lemmas.
